@@ -67,6 +67,9 @@ fn caller(id: u64, per: u64, mix: &str) {
     let mut fds = [0i32; 2];
     unsafe { libc::pipe(fds.as_mut_ptr()); }
     for k in 0..per {
+        if std::env::var_os("OCH_URING_DEBUG").is_some() {
+            eprintln!("caller {id} iter {k}: thread={:?} co={} susp={} loop_pool={}", std::thread::current().name(), open_coroutine_core::scheduler::SchedulableCoroutine::current().is_some(), open_coroutine_core::scheduler::SchedulableSuspender::current().is_some(), open_coroutine_core::co_pool::CoroutinePool::current().is_some());
+        }
         let bad = match mix { "err" => true, "mixed" => (id + k) % 3 == 0, _ => false };
         if bad {
             // a descriptor that is not open: the completion carries -EBADF
